@@ -26,12 +26,12 @@ def run(ctx):
         prog, info = load_program(cfg, "e57")
         ctx.configs[cfg] = info
         ctx.cfg = cfg
-        header_rules.publication_order(ctx, prog, "R1")
-        header_rules.placeholder(ctx, prog, "R2")
-        header_rules.who_may_seek(ctx, prog, "R3")
-        header_rules.reader_acceptance(ctx, prog, "R4")
+        ctx.call(header_rules.publication_order, prog, "R1")
+        ctx.call(header_rules.placeholder, prog, "R2")
+        ctx.call(header_rules.who_may_seek, prog, "R3")
+        ctx.call(header_rules.reader_acceptance, prog, "R4")
         # a partially written (torn) page fails its checksum: the page cache must never serve its bytes afterwards
-        cache_rules.invalidate_on_clobber(ctx, prog, cache_rules.PR, rule="R4")
-        cache_rules.validate_before_publish(ctx, prog, cache_rules.PR, "table" if cfg == "lib" else "crate", rule="R4")
-        cache_rules.serve_only_verified(ctx, prog, cache_rules.PR, rule="R4")
+        ctx.call(cache_rules.invalidate_on_clobber, prog, cache_rules.PR, rule="R4")
+        ctx.call(cache_rules.validate_before_publish, prog, cache_rules.PR, "table" if cfg == "lib" else "crate", rule="R4")
+        ctx.call(cache_rules.serve_only_verified, prog, cache_rules.PR, rule="R4")
     ctx.cfg = None
